@@ -39,7 +39,7 @@ ASSUMPTIONS = ['the oracle (vlib/c08_poly.py: sparse multivariate polynomials, n
 BUDGET_S = {'quick': 110, 'thorough': 1500}
 if os.environ.get('VERIF_C08_BUDGET'):   # development aid only (overloaded machine)
     BUDGET_S = {k: int(os.environ['VERIF_C08_BUDGET']) for k in BUDGET_S}
-NCASES = {'quick': 480, 'thorough': 6000}
+NCASES = {'quick': 440, 'thorough': 6000}
 if os.environ.get('VERIF_C08_NCASES'):   # development aid only
     NCASES = {k: int(os.environ['VERIF_C08_NCASES']) for k in NCASES}
 CHUNK = 8
